@@ -81,7 +81,14 @@ def h_dataitem():
     b.emit('let t = to_tok(&d).unwrap(); let e: DataItem = from_tok(&t).unwrap();')
     b.emit('assert!(e == d, "DataItem round trip is not equal");')
     b.emit('assert!(e.open().to_bits() == d.open().to_bits() && e.high().to_bits() == d.high().to_bits() && e.low().to_bits() == d.low().to_bits() && e.close().to_bits() == d.close().to_bits() && e.volume().to_bits() == d.volume().to_bits(), "DataItem fields changed");')
-    b.confirm = lambda vals: (False, [], 'DataItem counterexamples are not replayed natively (no replay command); reported as undecided')
+    def confirm(vals):
+        lines = ['diserde ' + ' '.join(vals[f] for f in 'ohlcv')]
+        for prof in ('dev', 'release'):
+            rep = native.run_script(lines, prof)[0]
+            if rep[0] != 'ok' and not (rep[0] == 'err' and rep[1].startswith('DataItem')):
+                return True, lines, 'DataItem %r does not round-trip through bincode: %r (%s)' % ([kani.hexf(vals[f]) for f in 'ohlcv'], rep, prof)
+        return False, lines, 'native round trip ok'
+    b.confirm = confirm
     return b
 
 
@@ -98,7 +105,7 @@ def main(chk):
         for n in ((2,) if q else (2, 3)):
             if IND[name]['np'] == 0 and n > 2: continue
             if name in HARD and n > 2: continue
-            for ck in ((0, n + 1, 'reset') if q else (0, 1, n + 1, 'reset')):
+            for ck in ((0, 1, n + 1, 'reset') if q else (0, 1, n, n + 1, 'reset')):
                 hs.append(k_harness(name, mode, n, ck, chk.seed, concrete=True, required=req))
             for var in ('nonfin', 'zeros'):          # values that "is this the default / empty?" guesses get wrong
                 hs.append(k_harness(name, mode, n, n + 1, chk.seed, concrete=True, required=req, variant=var))
